@@ -32,6 +32,10 @@ type c04nOp struct {
 }
 
 type c04nCase struct {
+	// Restore: after the complete stream was read, the node takes a snapshot and restarts from it;
+	// the resumes then go to a node that rebuilt its output from the snapshot's retained entries
+	// (a restarted node, or a follower that installed a snapshot: "different nodes holding the same log")
+	Restore  bool     `json:"snapshot_and_restart_before_the_resumes"`
 	Services bool     `json:"services_link"`
 	Ops      []c04nOp `json:"ops"`
 }
@@ -134,6 +138,17 @@ func c04nExecute(c *c04nCase, base string) (fail *vh.Failure, labels []string, n
 		}
 	}
 	lab := map[string]bool{}
+	if c.Restore {
+		if err := n.snapshot(); err != nil {
+			return vh.Failf("harness", "snapshot: %v", err), nil, false
+		}
+		nn, err := n.restart()
+		if err != nil {
+			return vh.Failf("harness", "restart: %v", err), nil, false
+		}
+		n = nn
+		lab["c04n:resumes-on-a-node-restored-from-a-snapshot"] = true
+	}
 	inBatch := map[uint64]int{}
 	for _, m := range full {
 		inBatch[m.Id.Id]++
@@ -181,6 +196,10 @@ func c04nExecute(c *c04nCase, base string) (fail *vh.Failure, labels []string, n
 			return vh.Failf(kind, "resume with lastseen=%s (message #%d of %d, %q; ids below are relative to the first id): expected the remaining %d messages [%s], received %d [%s]", lastseen, k, len(full), full[k].Data, len(want), describe(want), len(got), describe(got)), keys2(lab), true
 		}
 		for j := range want {
+			// numeric 003 carries the creation time of the server instance: a restarted node has its own
+			if got[j].Id == want[j].Id && strings.Contains(want[j].Data, " 003 ") && strings.Contains(got[j].Data, " 003 ") {
+				continue
+			}
 			if got[j].Id != want[j].Id || got[j].Data != want[j].Data {
 				return vh.Failf("node:resumed-stream-differs", "resume with lastseen=%s: message #%d is %d.%d %q, in the complete stream it is %d.%d %q", lastseen, j, got[j].Id.Id, got[j].Id.Reply, got[j].Data, want[j].Id.Id, want[j].Id.Reply, want[j].Data), keys2(lab), true
 			}
@@ -265,7 +284,7 @@ func TestVerifC04Node(t *testing.T) {
 		return
 	}
 	rapid.Check(t, func(rt *rapid.T) {
-		c := &c04nCase{Services: rapid.Bool().Draw(rt, "services")}
+		c := &c04nCase{Services: rapid.Bool().Draw(rt, "services"), Restore: rapid.IntRange(0, 2).Draw(rt, "restore") == 0}
 		nops := rapid.IntRange(1, 10).Draw(rt, "nops")
 		for k := 0; k < nops; k++ {
 			// the observer does not quit: its stream is what is resumed
